@@ -642,6 +642,43 @@ def r4_10(ctx):
             ctx.bad("R4.10", fi.module, fi.qual, what, f"FETCH's implicit flag handling lost: {what}", fi.node.lineno)
 
 
+def r4_11(ctx):
+    """Flags are stored as MH sequences: one `name: numbers` line per flag in .mh_sequences.  The name part is whatever the
+    client's keyword is (system flags are mapped to fixed names).  The pattern the parser reads a keyword with admits `:`
+    (it is an atom character), and a sequence name with a `:` in it makes the line unparsable for the MH reader: after
+    `STORE 1 +FLAGS (a:b)` every command that reads the folder's sequences fails.  So between the atom the parser read and
+    the name that is written there is a refusal (or an escape) of `:`."""
+    from .. import regexlang as rl
+    p = ctx.p
+    fi = p.func("parse.IMAPClientCommand._p_flag")
+    ctx.analysed(fi)
+    atom = p.module_constant("parse", "_atom_re")
+    src = None
+    if isinstance(atom, ast.Call) and atom.args and isinstance(atom.args[0], ast.Name):
+        atom = p.module_constant("parse", atom.args[0].id)  # _atom_re = re.compile(_atom)
+    if isinstance(atom, ast.Call) and atom.args and isinstance(atom.args[0], ast.Constant):
+        src = atom.args[0].value
+    elif isinstance(atom, ast.Constant):
+        src = atom.value
+    ctx.require(src is not None, "parse._atom_re is not a constant pattern", anchor=True)
+    src = src.decode("latin-1") if isinstance(src, bytes) else src
+    admits = rl.can_match_char(src, ":")
+    guarded = False
+    for n in body_walk(fi.node):
+        if isinstance(n, ast.If) and any(isinstance(x, ast.Constant) and x.value == ":" for x in ast.walk(n.test)) and any(isinstance(x, ast.Raise) for st in n.body for x in ast.walk(st)):
+            guarded = True
+    mapped = any(call_name(c) in ("replace", "translate", "quote", "escape") and any(isinstance(a, ast.Constant) and a.value == ":" for a in c.args) for c in calls_in(fi.node))
+    fs = p.functions.get("utils.flag_to_seq") or p.functions.get("constants.flag_to_seq")
+    if fs is not None:
+        mapped = mapped or any(call_name(c) in ("replace", "translate") and any(isinstance(a, ast.Constant) and a.value == ":" for a in c.args) for c in calls_in(fs.node))
+    if not admits:
+        ctx.ok("R4.11", where(fi), "the keyword pattern does not admit ':'")
+    elif guarded or mapped:
+        ctx.ok("R4.11", where(fi), "a keyword containing ':' is refused (or escaped) before it can become an MH sequence name")
+    else:
+        ctx.bad("R4.11", fi.module, fi.qual, "flag keyword may contain ':'", "the parser hands on a flag keyword that contains `:` (an atom character) and nothing refuses or escapes it before it becomes the name of an MH sequence: `STORE 1 +FLAGS (a:b)` writes the line `a:b: 1` to .mh_sequences, which the MH reader rejects - every later command that reads the folder's flags fails, for every session", fi.node.lineno)
+
+
 def run(ctx):
     ctx.do(r4_7)
     ctx.do(r4_6)
@@ -663,3 +700,4 @@ def run(ctx):
     ctx.do(c10.r10_4_units, modules=("mbox", "client"))
     from . import c05 as _c05
     ctx.do(_c05.r5_3)  # an expunged message's key leaves every flag set (or the next message with that key inherits them)
+    ctx.do(r4_11)
